@@ -45,7 +45,7 @@ DEFAULT_DEFS: List[Def] = [
     # Image: <image:src|alt>
     # src= $1, alt = $2
     Def(
-        match=re.compile(r'\\?<image:([^\s|]+)\|(.*?)>', re.DOTALL),
+        match=re.compile(r'\\?<image:([^\s|]+)\|([^>]*)>'),
         replacement='<img src="$1" alt="$2">'),
 
     # Image: <image:src>
@@ -63,7 +63,7 @@ DEFAULT_DEFS: List[Def] = [
     # Email: <address|caption>
     # address= $1, caption = $2
     Def(
-        match=re.compile(r'\\?<(\S+@[\w.\-]+)\|(.+?)>', re.DOTALL),
+        match=re.compile(r'\\?<(?=[^>]*>)(\S+@[\w.\-]+)\|(.[^>]*)>', re.DOTALL),
         replacement='<a href="mailto:$1">$$2</a>'),
 
     # Email: <address>
@@ -87,7 +87,7 @@ DEFAULT_DEFS: List[Def] = [
     # Link: <url|caption>
     # url= $1, caption = $2
     Def(
-        match=re.compile(r'\\?<(\S+?)\|(.*?)>', re.DOTALL),
+        match=re.compile(r'\\?<(\S[^\s|]*)\|([^>]*)>'),
         replacement='<a href="$1">$$2</a>'),
 
     # HTML inline tags.
